@@ -32,7 +32,8 @@ THEOREMS = ["C17_area_independent_of_vertex_order", "C17_centroid_independent_of
             "C17_expectation_for_every_sample_count_partial", "C17_stratified_choice_refuted",
             "C17_selection_probability_on_uniform_grid", "C17_expectation_on_uniform_grid",
             "C17_cumulative_areas_sorted", "C17_search_reference_is_model", "C17_fast_evaluators_equal_model",
-            "C17_constructor_accepts_only_valid", "C17_draw_stream", "C17_rectangle_helper_accepts_trapezoid"]
+            "C17_constructor_accepts_only_valid", "C17_draw_stream", "C17_rectangle_helper_accepts_trapezoid",
+            "C17_convex_ear_clipping_clockwise", "C17_point_triangle_uniform_on_grid", "C17_rectangle_helper_exact_set"]
 
 PI = 3.141592653589793          # the constant of voxels.pyx line 41; re-read from the source at the start of run()
 DEFAULT_SAMPLES = 10            # likewise (default grid_samples of the signatures)
@@ -866,9 +867,9 @@ def run(ctx):
 
     # ---- polygons -------------------------------------------------------------------------------
     classes = ["triangle", "rectangle", "quad", "convex", "star", "quad", "axis", "star", "template", "bigstar"]
-    n_base = 132 if quick else 3000
-    n_allvar = 8 if quick else 150
-    n_emis = 72 if quick else 1500
+    n_base = 132 if quick else 2400
+    n_allvar = 8 if quick else 110
+    n_emis = 72 if quick else 1200
     n_stat = 10 if quick else 150
     n_grids = 8 if quick else 60
     polys = []      # (class, exact, pts)
